@@ -1,6 +1,7 @@
 """Generic check driver: proofs + correspondence + predicates for one property module."""
 import json
 import os
+import struct
 import sys
 import time
 from fractions import Fraction
@@ -12,13 +13,13 @@ from .rng import Rng
 
 def case_to_json(c):
     return {"op": c.op, "ty": c.ty, "fam": c.fam, "style": c.style, "dims": c.dims,
-            "mop": c.mop, "mdims": c.mdims, "bits": ["%x" % num.bits(c.ty, x) for x in c.nums],
+            "mop": c.mop, "mdims": c.mdims, "bits": [num.enc(c.ty, x) for x in c.nums],
             "values": [repr(x) for x in c.nums], "tag": c.tag, "meta": c.meta,
             "impl_line": c.impl_line(), "model_line": c.model_line()}
 
 
 def case_from_json(j):
-    nums = [num.from_bits(j["ty"], int(b, 16)) for b in j["bits"]]
+    nums = [num.dec(j["ty"], b) for b in j["bits"]]
     return Case(j["op"], j["ty"], j["fam"], j["style"], j["dims"], nums, j["mop"], j["mdims"],
                 j.get("tag", "replay"), j.get("meta") or {})
 
@@ -47,14 +48,23 @@ def load_known(pid):
             op, ty, fam, style, nd = t[0], t[1], t[2], t[3], int(t[4])
             dims = [int(x) for x in t[5:5 + nd]]
             nn = int(t[5 + nd])
-            nums = [num.from_bits(ty, int(x, 16)) for x in t[6 + nd:6 + nd + nn]]
+            nums = [num.dec(ty, x) for x in t[6 + nd:6 + nd + nn]]
             out.append(Case(op, ty, fam, style, dims, nums, mop=inp.get("mop", op), mdims=inp.get("mdims", dims),
                             tag="known_finding", meta={"known_finding": f["id"]}))
     return out
 
 
+def q_twin(c):
+    """The same case for the exact-rational element type (harness/src/rat.rs): the crate's *generic* code is run on
+    the exact values of the f64 operands and must equal the model's rational instance, entry by entry."""
+    if c.ty != "f64" or c.fam == "bi" or c.op.startswith(("new_", "arr_")) or c.mop == "-" or c.op == "eqv":
+        return None
+    return Case(c.op, "q", c.fam, c.style, c.dims, [num.exact(x) for x in c.nums], c.mop, c.mdims,
+                "q:" + c.tag, dict(c.meta))
+
+
 def nontrivial_key(c):
-    return (c.mop, c.ty, tuple(c.mdims), tuple(num.bits(c.ty, x) for x in c.nums))
+    return (c.mop, c.ty, tuple(c.mdims), tuple(num.key(c.ty, x) for x in c.nums))
 
 
 def run_property(mod, pid, tier, seed, replay=None):
@@ -77,12 +87,17 @@ def run_property(mod, pid, tier, seed, replay=None):
             cases = [case_from_json(r["case"])]
     else:
         cases = load_known(pid) + load_corpus(pid) + mod.gen(rng, tier)
+        if getattr(mod, "Q_TWINS", True):
+            cases += [t for t in (q_twin(c) for c in cases if c.tag != "known_finding") if t is not None]
+        if hasattr(mod, "gen_q"):
+            cases += mod.gen_q(rng, tier)
     impl = core.run_impl(cases)
     model, n_model = core.run_model(cases)
     streams = {}
     seen = set()
     none_kinds = getattr(mod, "NONE_KINDS", ("NONE",))
     nshown = 0
+    q_pred_skipped = [0]
     for c, ri, rm in zip(cases, impl, model):
         st = streams.setdefault(c.tag, {"cases": 0, "distinct": 0, "impl_ok": 0, "impl_none": 0, "impl_fail": 0,
                                         "mismatch": 0, "predicate_failures": 0})
@@ -94,7 +109,7 @@ def run_property(mod, pid, tier, seed, replay=None):
             st["distinct"] += 1
         st["impl_ok" if ri[0] == "OK" else "impl_none" if ri[0] == "NONE" else "impl_fail"] += 1
         scale = mod.scale(c, rm) if hasattr(mod, "scale") else 1
-        if hasattr(mod, "compare"):
+        if hasattr(mod, "compare") and c.ty != "q":
             mism = mod.compare(c, ri, rm)
         else:
             mism = core.compare(c, ri, rm, scale=scale, none_kinds=none_kinds)
@@ -102,6 +117,13 @@ def run_property(mod, pid, tier, seed, replay=None):
             # non-termination / an abort is a concrete failing input of any property about this operation
             preds = ["the implementation %s on this input: %s" % (
                 "did not terminate" if ri[0] == "HANG" else "aborted", ri[1])]
+        elif c.ty == "q":
+            try:
+                preds = mod.predicates(c, ri, rm) if hasattr(mod, "predicates") else []
+            except (TypeError, ValueError, KeyError, OverflowError, struct.error) as e:
+                # a predicate written for IEEE operands only: the exact comparison still decides
+                preds = []
+                q_pred_skipped[0] += 1
         else:
             preds = mod.predicates(c, ri, rm) if hasattr(mod, "predicates") else []
         if len(rep.samples) < 6 and (nshown % 7 == 0 or replay):
@@ -132,8 +154,10 @@ def run_property(mod, pid, tier, seed, replay=None):
                                "model": [str(q) for q in rm[1]] if rm[0] == "OK" else "absent",
                                "correspondence": mism, "stream": c.tag})
     if hasattr(mod, "cross") and not replay:
-        for idx, text in mod.cross(cases, impl, model):
-            c, ri, rm = cases[idx], impl[idx], model[idx]
+        keep = [i for i, c in enumerate(cases) if c.ty != "q"]
+        fcases, fimpl, fmodel = [cases[i] for i in keep], [impl[i] for i in keep], [model[i] for i in keep]
+        for idx, text in mod.cross(fcases, fimpl, fmodel):
+            c, ri, rm = fcases[idx], fimpl[idx], fmodel[idx]
             kf = mod.known(c, ri, rm, text) if hasattr(mod, "known") else None
             if kf:
                 if kf not in rep.known:
@@ -148,6 +172,13 @@ def run_property(mod, pid, tier, seed, replay=None):
             print("  implementation:", ri)
             print("  model:", rm if rm[0] != "OK" else [float(q) if q is not None else None for q in rm[1]])
     rep.cov["model_evaluations"] = n_model
+    nq = sum(1 for c in cases if c.ty == "q")
+    if nq:
+        rep.cov["exact_rational_cases"] = nq
+        rep.cov["exact_rational_note"] = (
+            "streams 'q:*': the crate's generic code instantiated at the exact-rational element type Rat "
+            "(harness/src/rat.rs, semantics = coq/Model/Num.v) on the exact values of the f64 operands; results must "
+            "EQUAL the extracted model's (no tolerance); %d property predicates not applicable to that type" % q_pred_skipped[0])
     rep.assumptions = list(getattr(mod, "ASSUMPTIONS", [])) + [
         "float rounding of the numeric operators is not modelled: implementation results are compared with the exact "
         "rational model within 2^-30 (f64) / 2^-13 (f32)",
